@@ -519,6 +519,11 @@ class Engine:
         if isinstance(t, ast.Name):
             self.set_name(p, fr.scope, t.id, v); return [p]
         if isinstance(t, (ast.Tuple, ast.List)):
+            n_static = len(v) if isinstance(v, tuple) else (len(p.heap[v.oid][1]) if isinstance(v, Ref) and p.heap[v.oid][0] == 'list' else None)
+            if n_static is not None and n_static != len(t.elts) and not any(isinstance(e, ast.Starred) for e in t.elts):
+                # unpacking a sequence of statically known length into a different number of targets: python raises ValueError here
+                p.exc = ExcV('ValueError', (), origin='unpack')
+                return [p]
             items = self.unpack(p, v, len(t.elts))
             ps = [p]
             for te, ve in zip(t.elts, items):
